@@ -116,3 +116,34 @@ Proof.
           rewrite IH; reflexivity ].
 Qed.
 End GenFB.
+
+(* BacktrackingLineSearch.__call__: the control skeleton (while True / budget test / break / assert) is
+   pinned statement by statement in the translator; the formulas inside it -- start value and sign of
+   alpha, trial point, acceptance (Armijo) test, shrinking rule, final assertion, zero-derivative test --
+   are regenerated, and the model bt_loop / bt_search is exactly their composition *)
+Section GenBT.
+Variable X : IPS.
+Variable f : X -> R.
+
+Theorem gen_bt_loop_is_model (x d : X) (fx dd tau disc : R) (k : nat) (alpha : R) :
+  bt_loop X vplus smul f x d fx dd tau disc (S k) alpha
+  = (let fval := f (gen_bt_point X vplus smul x d alpha) in
+     if gen_bt_accept disc fx dd alpha fval
+     then (if gen_bt_assert fx fval then LsOk alpha else LsAssert)
+     else bt_loop X vplus smul f x d fx dd tau disc k (gen_bt_next tau alpha)).
+Proof.
+  cbn [bt_loop]. unfold gen_bt_point, gen_bt_accept, gen_bt_assert, gen_bt_next. numR.
+  rewrite smul_1. reflexivity.
+Qed.
+Theorem gen_bt_search_is_model (tau disc : R) (mni : nat) (est : bool) (alpha_st : R) (x d : X) (dd : R) :
+  bt_search X vplus smul f tau disc mni est alpha_st x d dd
+  = (if gen_bt_zero_derivative dd then LsZeroDeriv
+     else bt_loop X vplus smul f x d (f x) dd tau disc (S mni) (gen_bt_alpha0 est alpha_st dd)).
+Proof.
+  unfold bt_search, gen_bt_zero_derivative. numR. destruct (Reqb dd 0); [reflexivity|].
+  assert (E : gen_bt_alpha0 est alpha_st dd
+              = (if Rltb 0 dd then - (if est then alpha_st else 1) else (if est then alpha_st else 1))).
+  { unfold gen_bt_alpha0. numR. destruct est, (Rltb 0 dd); try reflexivity; ring. }
+  rewrite E. reflexivity.
+Qed.
+End GenBT.
